@@ -33,7 +33,7 @@ def main():
             rejected += 1
             metas = (o.get("op_meta") or [[]])[si] if si < len(o.get("op_meta") or []) else []
             msg = ans["tagged_msgs"][0]
-            key = stream_checks.classify_tagged(msg, metas)
+            key = stream_checks.classify_source(o, msg) or stream_checks.classify_tagged(msg, metas)
             ck.violation(f"read of undefined/stale/foreign bytes: {msg} (network {o['idx']} {o['profile']} {o.get('opts')})",
                          stream_checks.replay_obj(o, si, ans, line), key=key)
     # whole-inference execution: CPU operators and every Ethos-U stream of the output graph on one tagged memory
@@ -58,7 +58,8 @@ def main():
             rejected += 1
             ck.violation(f"whole-inference execution: {pa['tagged_msgs'][0]} (network {o['idx']} {o['profile']} {o.get('opts')})",
                          {"profile": o["profile"], "seed": o["seed"], "index": o["idx"], "opts": o.get("opts"), "network": o.get("desc"),
-                          "verdict": a[:1500], "request_head": o["inference_line"][:400]})
+                          "verdict": a[:1500], "request_head": o["inference_line"][:400]},
+                         key=stream_checks.classify_source(o, pa["tagged_msgs"][0]))
     for (o, si), ans in list(zip(owners, answers))[:3]:
         ck.sample({"network": o["desc"], "opts": o["opts"], "features": o.get("features"), "verdict": ans["raw"][:160]})
     ck.finish({
